@@ -141,6 +141,16 @@ pub fn execute_with(prop: &PropDef, cfg: &Cfg, evs: &[Ev], mut oracle: Box<dyn O
                     step: p.step,
                     detail: format!("{} panicked at {}:{}: {}", p.context, p.file, p.line, p.message),
                 })
+            } else if prop.id == "C17" && p.message.contains("capacity overflow") {
+                // Rust refusing a request above isize::MAX bytes: the input asked for an absurd allocation. The panic itself
+                // is C15's business; the attempted size is exactly what C17 bounds.
+                Verdict::Violation(Violation {
+                    property: prop.id.into(),
+                    oracle: "bounded_allocation".into(),
+                    signature: format!("capacity-overflow:{}", p.file),
+                    step: p.step,
+                    detail: format!("{} asked for more than isize::MAX bytes ({}:{}: {})", p.context, p.file, p.line, p.message),
+                })
             } else if !byz_seen.get() {
                 // An honest run (no crafted input so far) in which a public call panicked: whatever the property promises
                 // about that call, it did not happen. Reported under this property with its own oracle name; the worker
